@@ -2,7 +2,7 @@
 From Coq Require Import Permutation.
 From TauModel Require Import Base Num Oracles Syntax Value Yaml Pratt ParseMap Solver Rule Keys Optimiser Known Order.
 From TauModel Require Scope Scope2.
-From TauProofs Require C01 C01_matrix_nested C01_matrix_quant C12_order.
+From TauProofs Require C01 C01_matrix_nested C01_matrix_quant C01_d15 C12_order.
 
 Lemma crate_order_scope_nested_all_sound : forall o ic sw y r (d : doc),
   C01.H_strip o ->
@@ -22,4 +22,14 @@ Lemma crate_order_scope_quant_all_sound : forall o ic sw y r (d : doc),
 Proof.
   intros o ic sw y r d Hs Hl Hopt Hsc.
   exact (C01_matrix_quant.scope_quant_all_sound o ic rust_ord sw y r d C12_order.rust_ord_perm Hs Hl Hopt Hsc).
+Qed.
+
+Lemma crate_order_scope_quant_all_noq_sound : forall o ic sw y r (d : doc),
+  C01.H_strip o ->
+  load_rule o ic y = Ok r -> r_optimised r = false ->
+  Scope2.c01_scope_quant_all_noq o rust_ord sw (r_det r) = true ->
+  exists r', optimise o rust_ord sw r = Ok r' /\ matches o r' d = matches o r d.
+Proof.
+  intros o ic sw y r d Hs Hl Hopt Hsc.
+  exact (C01_d15.scope_quant_all_sound_noq o ic rust_ord sw y r d C12_order.rust_ord_perm Hs Hl Hopt Hsc).
 Qed.
